@@ -291,9 +291,19 @@ func main() {
 	if *vrt.ReplayPath != "" {
 		var rp struct {
 			Cfg cfg
+			Sib *sibCfg
 			Seq []int
 		}
 		vrt.LoadReplay(&rp)
+		if rp.Sib != nil {
+			_, msg, at := sibReplay(*rp.Sib, rp.Seq)
+			fmt.Println(sibNames(rp.Seq), "step", at, msg)
+			if msg != "" {
+				fmt.Printf("VIOLATION property=C09 replay=%s\n", *vrt.ReplayPath)
+				os.Exit(1)
+			}
+			return
+		}
 		_, msg, at := replaySeq(rp.Cfg, rp.Seq)
 		fmt.Println(names(rp.Seq), "step", at, msg)
 		if msg != "" {
@@ -324,6 +334,7 @@ func main() {
 			}
 		}
 	}
+	exploreSiblings(depth+1, states, nontrivial)
 	res.Sample(map[string]any{"expiry": "c=10s g=0 s=-1s ms=10s", "sequence": []string{"dp:c", "dp:g", "step:E", "flush", "step:E+1ns", "flush", "flush"}})
 	res.States = int64(len(states))
 	res.DistinctNontrivial = int64(len(nontrivial))
